@@ -123,6 +123,7 @@ TRIAGE = {
     "f9031bf4b4": "equivalent: a base64 digit is below 64",
     "788edb9158": "**blind spot, closed**: builder `set_source_contents` id through `u8`: `bld.seq` now also builds maps with 257 / 258 / 300 sources and sets contents at ids 255 / 256 / 257",
     "79c776a8e8": "**blind spot, closed**: the builder's `get_source_contents` id through `u8` (read by `flatten` / `rewrite` via `has_source_contents`): C09's corpus now rewrites a map whose 300 sources are all referenced and all have contents, so the builder's own ids pass 255; reported by C09 now",
+    "9e8f9ff207": "equivalent: every bit of the resized vector is overwritten by the stores that follow",
     "6812f09c9a": "`split_path` is used by `find_common_prefix` (the `~` option of `rewrite`) only, not by `make_relative_path`: outside C19; C09 holds for explicit prefixes and for whatever `~` computes (the stripped prefix is part of its statement)",
 }
 
